@@ -491,5 +491,6 @@ def extra_checks(ctx, cases, impl_lines, model_lines):
         return res
     # widths the unary model is not run on: maxima of 2^k + r, minima around 2^16, minima no sink can hold
     from gen import c11
-    return c11.wide_spec_checks(ctx, vc.build_harness("c11"))
+    vh11 = vc.build_harness("c11")
+    return c11.wide_spec_checks(ctx, vh11) or c11.thread_exit_checks(ctx, vh11)
 
